@@ -176,12 +176,14 @@ func runUnsupDevice(w *wctx, u unsupCase) {
 		eb = ea
 	}
 	var want []error
+	protoMatched := false
 	switch {
 	case ea == nil:
 		want = []error{mangos.ErrClosed}
 	default:
 		ia, ib := sockInfo(ea), sockInfo(eb)
 		matched := ia.Self == ib.Peer && ib.Self == ia.Peer
+		protoMatched = matched
 		raw := ea.raw && eb.raw
 		switch {
 		case matched && raw:
@@ -192,6 +194,14 @@ func runUnsupDevice(w *wctx, u unsupCase) {
 			want = []error{mangos.ErrBadProto}
 		default:
 			want = []error{mangos.ErrBadProto, mangos.ErrNotRaw}
+		}
+	}
+	// No receive deadline on the objects while Device is called: a forwarder started by mistake then
+	// sits in RecvMsg for good instead of leaving at the first time-out (see the steal probe below).
+	for _, c := range []*cpair{ca, cb} {
+		if c != nil {
+			c := c
+			guard(func() { _ = c.obj.SetOption(mangos.OptionRecvDeadline, time.Duration(0)) })
 		}
 	}
 	var derr error
@@ -240,8 +250,57 @@ func runUnsupDevice(w *wctx, u unsupCase) {
 	} else {
 		w.nontrivial(call)
 	}
-	// no side effect: both sockets still move messages with their own peers (a forwarder
-	// started by mistake would steal them)
+	// no side effect, part 1 (steal probe): the peer sends six messages; afterwards the application
+	// must be able to receive all six from the object.  A forwarder goroutine started by the refused
+	// Device would have taken (some of) them.
+	for _, c := range []*cpair{ca, cb} {
+		if c == nil || !(c.p.style == stSym || c.p.style == stRecvOnly || c.p.style == stServer) {
+			continue
+		}
+		if !protoMatched {
+			continue // Device refuses mismatched protocols before anything else could be started
+		}
+		want := map[string]bool{}
+		sendErr := false
+		for i := 0; i < 6; i++ {
+			t := c.tag()
+			if e := peerSend(c.peer, t); e.g.bad() || e.err != nil {
+				sendErr = true
+				break
+			}
+			want[t] = true
+		}
+		if sendErr {
+			w.count("steal-probe-skipped")
+			continue
+		}
+		time.Sleep(50 * time.Millisecond)
+		cc := c
+		guard(func() { _ = cc.obj.SetOption(mangos.OptionRecvDeadline, 500*time.Millisecond) })
+		got := 0
+		for i := 0; i < 50; i++ {
+			var m *mangos.Message
+			var rerr error
+			gr := guard(func() { m, rerr = cc.obj.RecvMsg() })
+			if gr.bad() || rerr != nil {
+				break
+			}
+			if want[string(m.Body)] {
+				got++
+			}
+			m.Free()
+			if got == len(want) {
+				break
+			}
+		}
+		if got != len(want) {
+			w.fail(fmt.Sprintf("unsupported-op-side-effect:%s:%s:messages-stolen", call, c.p.name), "fail", in,
+				"after the refused Device only %d of %d messages sent by the peer reached the application of the %s socket: something else (a forwarder?) is receiving from it", got, len(want), c.p.name)
+		} else {
+			w.count("device-refused-no-forwarder-left")
+		}
+	}
+	// part 2: both sockets still move messages with their own peers
 	for _, c := range []*cpair{ca, cb} {
 		if c == nil {
 			continue
@@ -249,6 +308,7 @@ func runUnsupDevice(w *wctx, u unsupCase) {
 		if ok, why := stillWorks(c, c.obj); !ok {
 			w.fail(fmt.Sprintf("unsupported-op-side-effect:%s:%s", call, c.p.name), "fail", in,
 				"after the refused Device the %s socket no longer works: %s", c.p.name, why)
+			continue
 		}
 	}
 }
